@@ -62,6 +62,61 @@ var constructs = []construct{
 	{"labelled-continue-native", func(rng *rand.Rand, inLoop bool) string {
 		return "next#:\nfor a := 0; a < 2; a++ {\n\tfor b := 0; b < 2; b++ {\n\t\tif b == 1 {\n\t\t\tcontinue next#\n\t\t}\n\t\ttr.V(#1, a*10+b)\n\t}\n}"
 	}},
+	// a labelled loop whose label is only referenced from its own body, the reference sitting in an if / switch /
+	// select / inner loop / block (a tool that "drops redundant labels" must still leave the LOOP from inside a switch)
+	{"label-own-loop", func(rng *rand.Rand, inLoop bool) string {
+		ref := []string{"break", "continue"}[rng.Intn(2)] + " own#"
+		body := "tr.V(#1, a#)\n"
+		if rng.Intn(3) > 0 {
+			body = "YIELD(#*100 + a#)\n"
+		}
+		var jump string
+		switch rng.Intn(7) {
+		case 0:
+			jump = "if tr.B(#2) {\n\t" + ref + "\n}\n"
+		case 1:
+			jump = "switch tr.N(#2, 2) {\ncase 0:\n\t" + ref + "\ndefault:\n\ttr.E(#3)\n}\n"
+		case 2:
+			jump = "switch {\ncase tr.B(#2):\n\ttr.E(#3)\n\t" + ref + "\n}\n"
+		case 3:
+			jump = "ch# := make(chan int, 1)\nch# <- 1\nselect {\ncase <-ch#:\n\tif tr.B(#2) {\n\t\t" + ref + "\n\t}\n}\n"
+		case 4:
+			jump = "for b# := 0; b# < 2; b#++ {\n\ttr.V(#3, b#)\n\tif tr.B(#2) {\n\t\t" + ref + "\n\t}\n}\n"
+		case 5:
+			jump = "for range 2 {\n\tif tr.B(#2) {\n\t\t" + ref + "\n\t}\n\ttr.E(#3)\n}\n"
+		default:
+			jump = "switch x# := any(a#).(type) {\ncase int:\n\tif x# > 0 {\n\t\t" + ref + "\n\t}\n}\n"
+		}
+		tail := "tr.E(#4)\n"
+		if rng.Intn(2) == 0 {
+			tail = "YIELD(#*100 + 50 + a#)\n"
+		}
+		if rng.Intn(2) == 0 {
+			return "own#:\nfor a# := 0; a# < 3; a#++ {\n" + body + jump + tail + "}\ntr.E(#5)"
+		}
+		return "own#:\nfor a# := range 3 {\n" + body + jump + tail + "}\ntr.E(#5)"
+	}},
+	// labelled block / switch left by a labelled break
+	{"label-block-or-switch", func(rng *rand.Rand, inLoop bool) string {
+		y := "tr.E(#2)"
+		if rng.Intn(2) == 0 {
+			y = "YIELD(#*100)"
+		}
+		if rng.Intn(2) == 0 {
+			return "blk#:\nswitch {\ndefault:\n\t" + y + "\n\tif tr.B(#1) {\n\t\tbreak blk#\n\t}\n\tYIELD(#*100 + 1)\n}\ntr.E(#3)"
+		}
+		return "sw#:\nswitch tr.N(#1, 2) {\ncase 0:\n\tfor i# := 0; i# < 2; i#++ {\n\t\t" + y + "\n\t\tif tr.B(#4) {\n\t\t\tbreak sw#\n\t\t}\n\t}\n\tYIELD(#*100 + 1)\ndefault:\n\ttr.E(#5)\n}\ntr.E(#3)"
+	}},
+	// defer at every position relative to the last yield of the function
+	{"defer-around-last-yield", func(rng *rand.Rand, inLoop bool) string {
+		switch rng.Intn(3) {
+		case 0:
+			return "if tr.B(#1) {\n\tYIELD(#*100)\n\tdefer tr.E(#2)\n\ttr.E(#3)\n}\ntr.E(#4)"
+		case 1:
+			return "{\n\tYIELD(#*100)\n\tdefer func() { tr.E(#2) }()\n}\ntr.E(#4)"
+		}
+		return "switch tr.N(#1, 2) {\ncase 0:\n\tYIELD(#*100)\n\tdefer tr.E(#2)\ndefault:\n\ttr.E(#3)\n}\ntr.E(#4)"
+	}},
 	{"fallthrough-yielding", func(rng *rand.Rand, inLoop bool) string {
 		return "switch tr.N(#1, 2) {\ncase 0:\n\tYIELD(#*100)\n\tfallthrough\ncase 1:\n\tYIELD(#*100 + 1)\n}"
 	}},
